@@ -178,6 +178,9 @@ class C10(Prop):
                 continue
             if q != 0:
                 j.nontrivial = True
+            if q < 0 and (A - fees) / p < -1:
+                out.append('negative long-only quantity %s for %s' % (q, a))
+                continue
             if near_int((A - fees) / p):
                 j.knife += 1
                 continue
@@ -188,7 +191,7 @@ class C10(Prop):
             if (q + 1) * p + fees <= A:
                 out.append('%s: %s shares, but one more would still fit (%s + fees %s <= %s)' % (a, q, float((q + 1) * p), float(fees), float(A)))
             total += q * p + fees
-        if total > E * (1 if norm else max(1, sum(x for _, x in w))) and not out:
+        if total > E and not out:
             out.append('whole target costs %s, more than (1 - buffer) x equity = %s' % (float(total), float(E)))
         if all(x == 0 for _, x in w) and any(q != 0 for _, q in impl[1]):
             out.append('all-zero weights gave a non-zero target %s' % impl[1])
